@@ -1001,6 +1001,18 @@ theorem file_context_tie_depends_on_hash_order :
     Resolver.fileChoicesTags (List.replicate (4 * n) Style.pascal ++ List.replicate 7 Style.kebab ++ List.replicate 9 Style.camel)
       possible = [.camel] := by decide +kernel
 
+/-- REPAIRED (repo commit 40204b5; the flag is read from `file_context.rs`): the code no longer walks its `HashMap` but
+    `Style::all_styles()`, i.e. the model's order parameter is the empty list (`keysOf [] tags` = the counted styles in
+    canonical order) in EVERY run: the tie of the theorem above is resolved the same way every time (the last maximum in
+    canonical order: camelCase), and the plan is a function of the tree again.  This was a C14 matter (determinism); it did not
+    touch clause 3 of C06, both answers keep the case of the match. -/
+theorem file_context_order_is_canonical_now :
+    Gen.fileContextCanonicalOrder = true ∧
+    (let n := Resolver.minIdentifiers
+     let tags := List.replicate n Style.snake ++ List.replicate n Style.camel
+     Resolver.fileSuggestTags [] tags [Style.snake, .kebab, .camel, .dot, .lowerFlat, .lowerSentence] = some .camel) := by
+  decide +kernel
+
 /-- the two gates of the file-context level, for whatever constants the source has: fewer counted identifiers than the
     threshold, or no style that reaches the medium-confidence ratio ⇒ the level is silent for every hash order -/
 theorem file_context_gates (ord tags possible : List Style)
